@@ -252,14 +252,18 @@ func (ci *ChunkInfo) getChunkCid(rootCid boson.Address) []*PyramidCidNum {
 	return cids
 }
 
-func (ci *ChunkInfo) getCidSort(rootCid, cid boson.Address) int {
+// getCidSort returns the bit index of cid among the data chunks of rootCid;
+// ok is false when cid is not a data chunk of that file (e.g. a manifest or
+// intermediate chunk), which has no bit in the availability records.
+func (ci *ChunkInfo) getCidSort(rootCid, cid boson.Address) (sort int, ok bool) {
 	ci.cp.RLock()
 	defer ci.cp.RUnlock()
 	pyramid, err := ci.getPyramid(rootCid)
 	if err != nil {
-		return 0
+		return 0, false
 	}
-	return pyramid.cids[cid.String()].sort
+	c, ok := pyramid.cids[cid.String()]
+	return c.sort, ok
 }
 
 // func (cp *chunkPyramid) updateCidSort(rootCid, cid boson.Address, sort int) {
